@@ -22,7 +22,10 @@ from . import c01
 LITERALS = ['char *s = "a\\"b\\\\c\\n"; char c = \'\\\'\'; char d = \'"\'; int e[] = {}; char *w = L"x\\ty";',
             'char *u = "héllo 世界"; char *v = u8"ü"; int f(void) { return \'\\\\\'; }',
             'struct S; int g(); void h(void) { ; {} } enum E { A }; int (*fp)(void) = 0;',
-            '_Alignas(8) int a8; _Alignas(double) char ad; struct A { _Alignas(16) int m; }; void p(void) { _Pragma("omp x") a8 = 1; }']
+            '_Alignas(8) int a8; _Alignas(double) char ad; struct A { _Alignas(16) int m; }; void p(void) { _Pragma("omp x") a8 = 1; }',
+            # empty child lists (as opposed to absent children): empty struct body, empty initializer, stacked labels
+            'struct E {} e; union UE {} ue; struct F; int z[3] = {}; void k(int n) { switch (n) { case 1: case 2: break; case 3: default: ; } }',
+            '']
 
 
 def node_ids(ast):
